@@ -13,7 +13,7 @@ def view(ex, info):
         if isinstance(v, Element):
             cid = ex.classes.cid_of.get(type(v), "class:" + type(v).__name__)
             rows.append([k if isinstance(k, str) else {"repr": type(k).__name__}, ex.lab(v), cid, v.name,
-                         ex.lab(v.parent), G.vj(v.value)])
+                         ex.lab(v.parent), G.sv(v)])
         else:
             rows.append([k if isinstance(k, str) else {"repr": type(k).__name__}, None, "raw:" + type(v).__name__,
                          None, None, G.vj(v)])
@@ -246,6 +246,8 @@ class C10(Property):
         return None
 
     def nontrivial(self, case, obs):
+        if any("view_raises" in st["view"] for st in obs["steps"]):
+            return True
         steps = obs["steps"]
         changed = 0
         for a, b in zip(steps, steps[1:]):
@@ -254,6 +256,8 @@ class C10(Property):
         return changed >= 3
 
     def tags(self, case, obs):
+        if any("view_raises" in st["view"] for st in obs["steps"]):
+            return ["view-raises"]
         s = case["schema"]
         t = ["kind=" + s["k"] + ("+required" if s["minreq"] else ""), "policy=" + s["policy"],
              "route=" + case["init"]["route"], "ops=%d" % len(case["ops"])]
